@@ -8,6 +8,7 @@ use compute::statistics::*;
 
 const SFN: [&str; 10] = ["Mean", "WMean", "Var", "SVar", "Std", "SStd", "Min", "Max", "ArgMin", "ArgMax"];
 const COVK: [&str; 4] = ["CovPop", "CovSample", "CovOnepass", "CovOnline"];
+const COVK_FN: [&str; 4] = ["covariance", "sample_covariance", "sample_covariance_onepass", "sample_covariance_online"];
 
 // ---------------------------------------------------------------------------------------------
 // data classes of the property
@@ -16,7 +17,8 @@ const SCALE: f64 = 1024.0; // dyadic data: every value is k/1024 with k an integ
 fn dyadic(x: f64) -> f64 { (x * SCALE).round() / SCALE }
 
 /// class 0 small integers, 1 gaussian (dyadic), 2 heavily offset gaussian, 3 constant, 4 sorted, 5 reversed,
-/// 6 ties and signed zeros; all values are exact multiples of 1/1024 below 2^38 in magnitude
+/// 6 ties and signed zeros, 7 the combination (heavily offset AND sorted / reversed AND with ties), 8 offset at the stated limit
+/// mean/sd = 1e8; all values are exact multiples of 1/1024 below 2^38 in magnitude
 fn data_class(r: &mut Rng, class: u64, n: usize) -> Vec<f64> {
     match class {
         0 => (0..n).map(|_| r.small_int(9)).collect(),
@@ -32,10 +34,19 @@ fn data_class(r: &mut Rng, class: u64, n: usize) -> Vec<f64> {
             if class == 5 { v.reverse(); }
             v
         }
-        _ => (0..n).map(|_| *r.pick(&[0.0, -0.0, 1.0, -1.0, 2.0, -2.0, 0.5, 0.0, -0.0])).collect(),
+        6 => (0..n).map(|_| *r.pick(&[0.0, -0.0, 1.0, -1.0, 2.0, -2.0, 0.5, 0.0, -0.0])).collect(),
+        7 => {
+            let off = *r.pick(&[1.0e5, 1.0e8, -1.0e8, 123456789.0]);
+            let mut v: Vec<f64> = (0..n).map(|_| off + *r.pick(&[0.0, 1.0, -1.0, 2.0, -2.0, 0.5, 0.25, 0.0])).collect();
+            v.sort_by(|a, b| a.partial_cmp(b).unwrap());
+            if r.coin(0.5) { v.reverse(); }
+            v
+        }
+        _ => { let off = if r.coin(0.5) { 1.0e8 } else { -1.0e8 }; (0..n).map(|_| off + dyadic(r.normal())).collect() }
     }
 }
-const CLASS_NAMES: [&str; 7] = ["small-int", "gaussian", "offset", "constant", "sorted", "reversed", "ties-zeros"];
+const CLASS_NAMES: [&str; 9] = ["small-int", "gaussian", "offset", "constant", "sorted", "reversed", "ties-zeros", "offset-sorted-ties", "offset-1e8"];
+const NCLASS: u64 = 9;
 
 fn reals(r: &mut Rng, n: usize) -> Vec<f64> { (0..n).map(|_| r.uniform(-4.0, 4.0) * if r.coin(0.1) { 1.0e3 } else { 1.0 }).collect() }
 
@@ -124,13 +135,19 @@ pub fn gen(tier: &str, seed: u64, outdir: &str) {
     // 1. every length 0..=L (all residues mod 8 of the unrolled sum), every data class
     let maxl = if thorough { 72 } else { 26 };
     for n in 0..=maxl {
-        for class in 0..7u64 {
+        for class in 0..8u64 {
             if !thorough && n > 10 && (n as u64 + class) % 3 != 0 { continue; }
             let d = data_class(&mut r, class, n);
             push_stats(&mut cs, &mut r, &d, CLASS_NAMES[class as usize]);
-            let cy = if r.coin(0.5) { class } else { r.below(7) };
+            let cy = if r.coin(0.5) { class } else { r.below(8) };
             let y = data_class(&mut r, cy, n);
             push_cov(&mut cs, &d, &y, CLASS_NAMES[class as usize]);
+            // special pairs: a vector with itself, with its negation
+            if (n as u64 + class) % 4 == 0 {
+                push_cov(&mut cs, &d, &d, "self");
+                let neg: Vec<f64> = d.iter().map(|v| -v).collect();
+                push_cov(&mut cs, &d, &neg, "negated");
+            }
         }
         // the same kinds of data at very small and very large scales (variance scales quadratically: 2^-60 .. 2^-400 and back)
         if n >= 1 {
@@ -154,7 +171,7 @@ pub fn gen(tier: &str, seed: u64, outdir: &str) {
         push_hist(&mut cs, &specials(&mut r, n), "special");
     }
     // 2. longer vectors (each case repeats its data: a few functions per data set, all of them over the stream)
-    let lens: Vec<usize> = if thorough { vec![100, 257, 1000, 1023, 4096, 10000, 9999, 5003, 777, 2500] } else { vec![100, 257, 1000] };
+    let lens: Vec<usize> = if thorough { vec![100, 257, 1000, 1023, 4096, 10000, 9999, 5003, 777, 2500] } else { vec![100, 257, 1000, 10000] };
     let mut fi = 0usize;
     for (i, &n) in lens.iter().enumerate() {
         for rep in 0..2 {
@@ -223,19 +240,26 @@ pub fn gen(tier: &str, seed: u64, outdir: &str) {
     for b in big { while ordered.len() % per != 0 { ordered.push("(CHist [] Panic)".to_string()); } ordered.push(b); }
     cs.cases = ordered;
     cs.write(outdir, per,
-             "every length 0..=26 (quick) / 0..=72 (thorough), hence every residue mod 8 of the unrolled sum, x data classes {small integers, gaussian, offset up to 1e8, constant, sorted, reversed, ties with signed zeros, uniform reals, special values (+-0, +-inf, NaN, subnormals, +-MAX)} for the ten scalar statistics (free function; one random Vector method and one random Matrix method per data set), the four covariance algorithms on paired vectors, bin centres of uniform / non-uniform / unsorted / special edges; longer vectors up to 1000 (quick) / 10000 (thorough); an extrema stream (NaN, signed zeros, infinities, +-MAX, ties at every position) x 3 calling forms; a malformed stream (covariance of unequal lengths, fewer than 2 edges); non-trivial = length >= 3 and non-constant data (both vectors for covariance), or a panic; distinct by hash of the case term");
+             "every length 0..=26 (quick) / 0..=72 (thorough), hence every residue mod 8 of the unrolled sum, x data classes {small integers, gaussian, offset up to 1e8, constant, sorted, reversed, ties with signed zeros, offset + sorted/reversed + ties combined, uniform reals, special values (+-0, +-inf, NaN, subnormals, +-MAX)} for the ten scalar statistics (free function; one random Vector method and one random Matrix method per data set), the four covariance algorithms on paired vectors (also a vector with itself and with its negation), bin centres of uniform / non-uniform / unsorted / special edges; longer vectors up to the stated maximum 10000 (both tiers; 4 lengths quick, 10 thorough); an extrema stream (NaN, signed zeros, infinities, +-MAX, ties at every position) x 3 calling forms; a malformed stream (covariance of unequal lengths, fewer than 2 edges); non-trivial = length >= 3 and non-constant data (both vectors for covariance), or a panic; distinct by hash of the case term");
 }
 
 // ---------------------------------------------------------------------------------------------
 // failure-search oracle: the property's statement against the implementation only.
-// Exact sums over dyadic data x = k/1024 in i128.
+// Exact sums over dyadic data x = k/scale (scale a power of two) in i128.  The second central moments are shift
+// invariant in exact arithmetic, so the integers are centred on the first datum before they are squared: this keeps
+// the exact reference inside i128 for data with full 53-bit mantissas and for offsets of 1e8 on a 2^-26 grid.
 struct Ex { n: i128, s1: i128, s2: i128 }
-fn ints_of(d: &[f64]) -> Option<Vec<i128>> {
-    d.iter().map(|x| { let k = x * SCALE; if k.is_finite() && k == k.round() && k.abs() < 1.0e15 { Some(k as i128) } else { None } }).collect()
+fn ints_of(d: &[f64], scale: f64) -> Option<Vec<i128>> {
+    d.iter().map(|x| { let k = x * scale; if k.is_finite() && k == k.round() && k.abs() < 4.0e18 { Some(k as i128) } else { None } }).collect()
+}
+/// the integers relative to the first one; None when the spread is too wide for the exact sums (n <= 1e4, |k - k0| < 2^48)
+fn centred(k: &[i128]) -> Option<Vec<i128>> {
+    if k.is_empty() { return Some(vec![]); }
+    let k0 = k[0];
+    k.iter().map(|a| { let c = a - k0; if c.abs() < (1i128 << 48) { Some(c) } else { None } }).collect()
 }
 fn ex(k: &[i128]) -> Ex { Ex { n: k.len() as i128, s1: k.iter().sum(), s2: k.iter().map(|a| a * a).sum() } }
 fn ratio(p: i128, q: i128) -> f64 { p as f64 / q as f64 }
-const S2: i128 = 1024 * 1024;
 
 /// error a numerically stable algorithm may commit on a second central moment of scale `scale` when the
 /// mean/spread ratio is `kappa`: c.(n + 2).eps.(1 + kappa).scale (Chan-Golub-LeVeque bound for Welford / two-pass)
@@ -245,175 +269,426 @@ fn finding(out: &mut Vec<Finding>, class: &str, what: String, input: String) {
     if out.iter().filter(|f| f.class == class).count() < 3 { out.push(Finding { class: class.into(), what, input }); }
 }
 
+/// data with (nearly) full mantissas on the grid 2^-g: kind 0 gaussian (sd 3), kind 1 gaussian (sd 1) offset by +-1e8 / 123456789 / 1e7
+/// (exactly representable on the grid 2^-26), kind 2 sorted gaussian, kind 3 a constant
+fn data_fine(r: &mut Rng, kind: u64, n: usize, g: i32) -> Vec<f64> {
+    let s = (2.0f64).powi(g);
+    let fine = |v: f64| (v * s).round() / s;
+    match kind {
+        0 => (0..n).map(|_| fine(3.0 * r.normal())).collect(),
+        1 => { let off = *r.pick(&[1.0e8, -1.0e8, 123456789.0, 1.0e7, 99999999.0]); (0..n).map(|_| off + fine(r.normal())).collect() }
+        2 => { let mut v: Vec<f64> = (0..n).map(|_| fine(5.0 * r.normal())).collect(); v.sort_by(|a, b| a.partial_cmp(b).unwrap()); v }
+        _ => { let c = fine(7.0 * r.normal()); vec![c; n] }
+    }
+}
+
+/// how the second vector of a pair is made
+#[derive(Clone, Copy, PartialEq)]
+enum Pair { Class, Same, Negated, Linear, ConstY, ConstX }
+
+/// first-occurrence extrema against naive loops, free functions and Vector / Matrix methods (finite data; +0 and -0 compare equal)
+fn check_extrema(out: &mut Vec<Finding>, tried: &mut u64, x: &[f64], rows: usize, input: &str, forms: bool) {
+    let n = x.len();
+    let mut lo = 0usize; let mut hi = 0usize;
+    for i in 1..n { if x[i] < x[lo] { lo = i; } if x[i] > x[hi] { hi = i; } }
+    *tried += 4;
+    crumb(input);
+    let (gmin, gmax, gamin, gamax) = (min(x), max(x), argmin(x), argmax(x));
+    if !(gmin == x[lo]) { finding(out, "min:wrong", format!("min returned {:e}, the minimum is {:e}", gmin, x[lo]), input.to_string()); }
+    if !(gmax == x[hi]) { finding(out, "max:wrong", format!("max returned {:e}, the maximum is {:e}", gmax, x[hi]), input.to_string()); }
+    if gamin != lo { finding(out, "argmin:not-first-minimum", format!("argmin returned {}, the first index of the minimum is {}", gamin, lo), input.to_string()); }
+    if gamax != hi { finding(out, "argmax:not-first-maximum", format!("argmax returned {}, the first index of the maximum is {}", gamax, hi), input.to_string()); }
+    if forms {
+        let cols = n / rows;
+        let inp = format!("{} rows={}", input, rows);
+        crumb(&inp);
+        let m = Matrix::new(x.to_vec(), rows as i32, cols as i32);
+        *tried += 2;
+        if m.argmin() != (lo / cols, lo % cols) { finding(out, "Matrix::argmin:wrong", format!("returned {:?}, first minimum at {:?}", m.argmin(), (lo / cols, lo % cols)), inp.clone()); }
+        if m.argmax() != (hi / cols, hi % cols) { finding(out, "Matrix::argmax:wrong", format!("returned {:?}, first maximum at {:?}", m.argmax(), (hi / cols, hi % cols)), inp.clone()); }
+        let v = Vector::new(x.to_vec());
+        *tried += 6;
+        if !(v.min() == x[lo]) { finding(out, "Vector::min:wrong", format!("returned {:e}, the minimum is {:e}", v.min(), x[lo]), input.to_string()); }
+        if !(v.max() == x[hi]) { finding(out, "Vector::max:wrong", format!("returned {:e}, the maximum is {:e}", v.max(), x[hi]), input.to_string()); }
+        if v.argmin() != lo { finding(out, "Vector::argmin:not-first-minimum", format!("returned {}, the first index of the minimum is {}", v.argmin(), lo), input.to_string()); }
+        if v.argmax() != hi { finding(out, "Vector::argmax:not-first-maximum", format!("returned {}, the first index of the maximum is {}", v.argmax(), hi), input.to_string()); }
+        if !(m.min() == x[lo]) { finding(out, "Matrix::min:wrong", format!("returned {:e}, the minimum is {:e}", m.min(), x[lo]), inp.clone()); }
+        if !(m.max() == x[hi]) { finding(out, "Matrix::max:wrong", format!("returned {:e}, the maximum is {:e}", m.max(), x[hi]), inp.clone()); }
+    }
+}
+
+/// bin centres against the midpoints of consecutive edges (the allowance 8.ne.eps.max|edge| of the first version, unchanged)
+fn check_hist(out: &mut Vec<Finding>, tried: &mut u64, e: &[f64], class: &str) {
+    let ne = e.len();
+    *tried += 1;
+    let emax = e.iter().fold(0.0f64, |a, b| a.max(b.abs()));
+    let inp = format!("edges={}", json_floats(e));
+    crumb(&inp);
+    match run_hist(e) {
+        Ok(c) => {
+            let bad = c.len() != ne - 1 || (0..ne - 1).any(|i| !((c[i] - (e[i] + e[i + 1]) / 2.0).abs() <= 8.0 * (ne as f64) * f64::EPSILON * emax));
+            if bad {
+                let want: Vec<f64> = (0..ne - 1).map(|i| (e[i] + e[i + 1]) / 2.0).collect();
+                let k = (0..(ne - 1).min(c.len())).find(|&i| !((c[i] - want[i]).abs() <= 8.0 * (ne as f64) * f64::EPSILON * emax)).unwrap_or(0);
+                let show = |v: &[f64]| if v.len() <= 48 { format!("{:?}", v) } else { format!("{} values, [{}] = {:e}", v.len(), k, v.get(k).copied().unwrap_or(f64::NAN)) };
+                finding(out, class, format!("returned {}, the midpoints are {}", show(&c), show(&want)), inp);
+            }
+        }
+        Err(er) => finding(out, "hist_bin_centers:panics", format!("panicked on {} edges: {}", ne, er), inp),
+    }
+}
+
+/// one data set (and its partner for the covariances) against every clause of the statement.  `all` = run every
+/// sub-check (the scheduled evaluation points); otherwise the sub-checks rotate with the iteration number.
+fn eval_pair(r: &mut Rng, out: &mut Vec<Finding>, tried: &mut u64, it: usize, all: bool, scale: f64, x: &[f64], y: &[f64]) {
+    let n = x.len();
+    let (kx, ky) = match (ints_of(x, scale).and_then(|k| centred(&k)), ints_of(y, scale).and_then(|k| centred(&k))) { (Some(a), Some(b)) => (a, b), _ => return };
+    let (ex_x, ex_y) = (ex(&kx), ex(&ky));
+    let nn = n as i128;
+    let sc = scale as i128; let s2c = sc * sc;
+    let sxy: i128 = kx.iter().zip(&ky).map(|(a, b)| a * b).sum();
+    let input = format!("x={}", json_floats(x));
+    let input2 = format!("x={} y={}", json_floats(x), json_floats(y));
+    // exact definitions (the integers are centred on the first datum: x = x[0] + k/scale)
+    let mean_x = x[0] + ratio(ex_x.s1, nn * sc);
+    let m2x = nn * ex_x.s2 - ex_x.s1 * ex_x.s1;           // n^2 * scale^2 * var
+    let m2y = nn * ex_y.s2 - ex_y.s1 * ex_y.s1;
+    let cxy = nn * sxy - ex_x.s1 * ex_y.s1;               // n^2 * scale^2 * cov
+    let var_x = ratio(m2x, nn * nn * s2c);
+    let var_y = ratio(m2y, nn * nn * s2c);
+    let sd_x = var_x.sqrt(); let sd_y = var_y.sqrt();
+    let maxabs = x.iter().fold(0.0f64, |a, b| a.max(b.abs()));
+    let kappa_x = if sd_x > 0.0 { mean_x.abs() / sd_x } else { 0.0 };
+    let mean_y = y[0] + ratio(ex_y.s1, nn * sc);
+    let kappa_y = if sd_y > 0.0 { mean_y.abs() / sd_y } else { 0.0 };
+    // the Matrix forms: rows x cols = n, rows a divisor of n (1 x n, n x 1 and everything between)
+    let rows = { let divs: Vec<usize> = (1..=n.min(16)).filter(|k| n % k == 0).collect(); if all && r.coin(0.3) { n } else { *r.pick(&divs) } };
+    let cols = n / rows;
+    // --- exact scaling by a power of two: every operation of every algorithm commutes with it (no rounding changes, far from
+    //     overflow/underflow), so mean scales by c, std by |c|, variances and covariances by c^2, bit for bit, at EVERY scale;
+    //     the extrema scale by c and their indices do not move
+    if (all || it % 3 == 0) && n >= 2 {
+        let k = *r.pick(&[-400i32, -200, -100, -40, -30, -12, 30, 100, 200, 400]);
+        let c = (2.0f64).powi(k); let c2 = (2.0f64).powi(2 * k);
+        let xs: Vec<f64> = x.iter().map(|v| v * c).collect(); let ys: Vec<f64> = y.iter().map(|v| v * c).collect();
+        let inp = format!("x={} y={} both scaled by 2^{}", json_floats(x), json_floats(y), k);
+        crumb(&inp);
+        let same = |a: f64, b: f64| a == b || (a.is_nan() && b.is_nan());
+        for (name, a, b) in [("mean", mean(&xs), mean(x) * c), ("welford_mean", welford_mean(&xs), welford_mean(x) * c),
+                             ("var", var(&xs), var(x) * c2), ("sample_var", sample_var(&xs), sample_var(x) * c2),
+                             ("std", std(&xs), std(x) * c), ("sample_std", sample_std(&xs), sample_std(x) * c),
+                             ("covariance", covariance(&xs, &ys), covariance(x, y) * c2), ("sample_covariance", sample_covariance(&xs, &ys), sample_covariance(x, y) * c2),
+                             ("sample_covariance_onepass", sample_covariance_onepass(&xs, &ys), sample_covariance_onepass(x, y) * c2),
+                             ("sample_covariance_online", sample_covariance_online(&xs, &ys), sample_covariance_online(x, y) * c2),
+                             ("min", min(&xs), min(x) * c), ("max", max(&xs), max(x) * c),
+                             ("argmin", argmin(&xs) as f64, argmin(x) as f64), ("argmax", argmax(&xs) as f64, argmax(x) as f64)] {
+            *tried += 1;
+            if !same(a, b) { out.push(Finding { class: format!("{}:not-scale-equivariant", name), what: format!("{}(2^{} x) = {:e} but 2^({}) * {}(x) = {:e}: scaling the data by a power of two must scale the statistic exactly (variance quadratically)", name, k, a, if name.contains("var") { 2 * k } else { k }, name, b), input: inp.clone() }); }
+        }
+        // bilinearity: different (and negative) factors on the two vectors
+        let (ka, kb) = (*r.pick(&[-200i32, -100, -30, -12, 0, 12, 30, 100, 200]), *r.pick(&[-200i32, -100, -30, -12, 0, 12, 30, 100, 200]));
+        let (a, b) = ((2.0f64).powi(ka), -(2.0f64).powi(kb));
+        let xs: Vec<f64> = x.iter().map(|v| v * a).collect(); let ys: Vec<f64> = y.iter().map(|v| v * b).collect();
+        let inp = format!("x={} scaled by 2^{}, y={} scaled by -2^{}", json_floats(x), ka, json_floats(y), kb);
+        crumb(&inp);
+        for k in 0..4 {
+            *tried += 1;
+            if let (Ok(p), Ok(q)) = (run_cov(k, &xs, &ys), run_cov(k, x, y)) {
+                if !same(p[0], q[0] * a * b) { finding(out, &format!("{}:not-bilinear", COVK_FN[k]), format!("cov(2^{} x, -2^{} y) = {:e} but -2^{} cov(x, y) = {:e}", ka, kb, p[0], ka + kb, q[0] * a * b), inp.clone()); }
+            }
+        }
+    }
+    // --- means
+    crumb(&input);
+    for (name, got) in [("mean", mean(x)), ("welford_mean", welford_mean(x)), ("Vector::mean", Vector::new(x.to_vec()).mean()),
+                        ("Matrix::mean", Matrix::new(x.to_vec(), rows as i32, cols as i32).mean())] {
+        *tried += 1;
+        if !((got - mean_x).abs() <= 4.0 * (n as f64 + 2.0) * f64::EPSILON * maxabs + 1e-300) {
+            finding(out, &format!("{}:wrong", name), format!("{} returned {:e}, the mean is {:e}", name, got, mean_x), input.clone());
+        }
+    }
+    // --- variances
+    // a constant data set has variance exactly 0 in exact arithmetic; a stable algorithm may return rounding noise of
+    // size eps^2.mean^2 at most (the mean itself is known to relative eps)
+    let t = tol(n, kappa_x, var_x) + 4.0 * (n as f64) * (f64::EPSILON * maxabs).powi(2);
+    let (vx, mx) = (Vector::new(x.to_vec()), Matrix::new(x.to_vec(), rows as i32, cols as i32));
+    for (name, got) in [("var", var(x)), ("Vector::var", vx.var()), ("Matrix::var", mx.var())] {
+        *tried += 1;
+        if !((got - var_x).abs() <= t) { finding(out, &format!("{}:wrong", name), format!("{} returned {:e}, definition gives {:e}", name, got, var_x), input.clone()); }
+    }
+    for (name, got) in [("std", std(x)), ("Vector::std", vx.std()), ("Matrix::std", mx.std())] {
+        *tried += 1;
+        if !((got - sd_x).abs() <= t.sqrt().max(t / sd_x.max(1e-300))) { finding(out, &format!("{}:wrong", name), format!("{} returned {:e}, definition gives {:e}", name, got, sd_x), input.clone()); }
+    }
+    if n >= 2 {
+        let svar = ratio(m2x, nn * (nn - 1) * s2c);
+        for (name, got) in [("sample_var", sample_var(x)), ("Vector::sample_var", vx.sample_var()), ("Matrix::sample_var", mx.sample_var())] {
+            *tried += 1;
+            if !((got - svar).abs() <= 2.0 * t) { finding(out, &format!("{}:wrong", name), format!("{} returned {:e}, definition gives {:e}", name, got, svar), input.clone()); }
+        }
+        for (name, got) in [("sample_std", sample_std(x)), ("Vector::sample_std", vx.sample_std()), ("Matrix::sample_std", mx.sample_std())] {
+            *tried += 1;
+            if !((got - svar.sqrt()).abs() <= (2.0 * t).sqrt().max(2.0 * t / svar.sqrt().max(1e-300))) { finding(out, &format!("{}:wrong", name), format!("{} returned {:e}, definition gives {:e}", name, got, svar.sqrt()), input.clone()); }
+        }
+    }
+    // --- covariances: definition, agreement of the algorithms, cov(x,x) = var
+    let cov = ratio(cxy, nn * nn * s2c);
+    let scale_xy = sd_x * sd_y; // >= |cov| (Cauchy-Schwarz), the size of the summed terms
+    let maxy = y.iter().fold(0.0f64, |a, b| a.max(b.abs()));
+    let tc_of = |kap: f64, mxa: f64, mya: f64| tol(n, kap, scale_xy) + 4.0 * (n as f64) * (f64::EPSILON * mxa) * (f64::EPSILON * mya)
+        + 8.0 * (n as f64 + 2.0) * f64::EPSILON * (f64::EPSILON * mxa * sd_y + f64::EPSILON * mya * sd_x);
+    let tc = tc_of(kappa_x.max(kappa_y), maxabs, maxy);
+    // --- shift invariance (an exact shift keeps the data on the grid) and exact quadratic scaling
+    if all || it % 3 == 0 {
+        let c = *r.pick(&[1.0e4, 1.0e6, 1.0e8, -1.0e8, 3.0]);
+        let d = *r.pick(&[0.0, 1.0e8, -1.0e6, 3.0, c]);
+        let xs: Vec<f64> = x.iter().map(|v| v + c).collect();
+        let ys: Vec<f64> = y.iter().map(|v| v + d).collect();
+        if ints_of(&xs, scale).is_some() && xs.iter().zip(x).all(|(a, b)| a - c == *b) {
+            *tried += 1;
+            crumb(&format!("x={}", json_floats(&xs)));
+            let sd = var_x.sqrt();
+            let kap = if sd > 0.0 { (mean_x + c).abs() / sd } else { 0.0 };
+            let t2 = tol(n, kap, var_x) + 4.0 * (n as f64) * (f64::EPSILON * (maxabs + c.abs())).powi(2);
+            let got = var(&xs);
+            if !((got - var_x).abs() <= t2) { finding(out, "var:not-shift-invariant", format!("var(x + {:e}) = {:e} but var(x) = {:e}", c, got, var_x), input.clone()); }
+            // the covariances of the shifted pair against the (unchanged) exact covariance, same allowance formula at the shifted means
+            if n >= 2 && ints_of(&ys, scale).is_some() && ys.iter().zip(y).all(|(a, b)| a - d == *b) {
+                let kapy = if sd_y > 0.0 { (mean_y + d).abs() / sd_y } else { 0.0 };
+                let tcs = tc_of(kap.max(kapy), maxabs + c.abs(), maxy + d.abs());
+                let dx0 = x.iter().fold(0.0f64, |a, b| a.max((b - x[0]).abs())); let dy0 = y.iter().fold(0.0f64, |a, b| a.max((b - y[0]).abs()));
+                let inp = format!("x={} + {:e}, y={} + {:e}", json_floats(x), c, json_floats(y), d);
+                crumb(&inp);
+                for k in 0..4 {
+                    *tried += 1;
+                    let want = if k == 0 { cov } else { ratio(cxy, nn * (nn - 1) * s2c) };
+                    let allow = match k { 0 => tcs, 2 => 2.0 * tcs + 32.0 * (n as f64 + 2.0) * f64::EPSILON * dx0 * dy0, _ => 2.0 * tcs };
+                    match run_cov(k, &xs, &ys) {
+                        Ok(g) => if !((g[0] - want).abs() <= allow) { finding(out, &format!("{}:not-shift-invariant", COVK_FN[k]), format!("after the shift it returned {:e}, the covariance (unchanged by a shift) is {:e}", g[0], want), inp.clone()); },
+                        Err(e) => finding(out, &format!("{}:panics", COVK_FN[k]), format!("panicked on equal-length vectors: {}", e), inp.clone()),
+                    }
+                }
+            }
+        }
+        let xs: Vec<f64> = x.iter().map(|v| v * 4.0).collect();
+        *tried += 1;
+        crumb(&format!("x={}", json_floats(&xs)));
+        if var(&xs) != 16.0 * var(x) { finding(out, "var:not-quadratic-in-scale", format!("var(4x) = {:e} but 16 var(x) = {:e}", var(&xs), 16.0 * var(x)), input.clone()); }
+    }
+    *tried += 1;
+    crumb(&input2);
+    let got = covariance(x, y);
+    if !((got - cov).abs() <= tc) { finding(out, "covariance:wrong", format!("covariance returned {:e}, definition gives {:e}", got, cov), input2.clone()); }
+    if n >= 2 {
+        let scov = ratio(cxy, nn * (nn - 1) * s2c);
+        // the shifted one-pass algorithm works on x - x[0]: its stable bound carries the spread of the shifted data
+        let dx0 = x.iter().fold(0.0f64, |a, b| a.max((b - x[0]).abs())); let dy0 = y.iter().fold(0.0f64, |a, b| a.max((b - y[0]).abs()));
+        let t1 = 2.0 * tc + 32.0 * (n as f64 + 2.0) * f64::EPSILON * dx0 * dy0;
+        for (k, name) in [(1usize, "sample_covariance"), (2, "sample_covariance_onepass"), (3, "sample_covariance_online")] {
+            *tried += 1;
+            let got = run_cov(k, x, y).map(|v| v[0]);
+            match got {
+                Ok(g) => if !((g - scov).abs() <= if k == 2 { t1 } else { 2.0 * tc }) {
+                    finding(out, &format!("{}:wrong", name), format!("{} returned {:e}, the sample covariance is {:e} (population covariance {:e})", name, g, scov, cov), input2.clone());
+                },
+                Err(e) => finding(out, &format!("{}:panics", name), format!("panicked on equal-length vectors: {}", e), input2.clone()),
+            }
+        }
+        *tried += 1;
+        crumb(&input);
+        let (a, b) = (sample_covariance(x, x), sample_var(x));
+        if !((a - b).abs() <= 4.0 * t) { finding(out, "sample_covariance:xx-differs-from-sample_var", format!("sample_covariance(x,x) = {:e}, sample_var(x) = {:e}", a, b), input.clone()); }
+    }
+    // --- rejection half: unequal lengths must panic (second vector longer, shorter, empty; first vector empty)
+    if all || it % 10 == 0 {
+        let extra = 1 + r.below(3) as usize;
+        let y2 = data_class(r, 0, n + extra);
+        let shorter = n - (1 + r.below(n as u64) as usize).min(n);
+        let y3 = data_class(r, 0, shorter);
+        for (a, b) in [(x, &y2[..]), (x, &y3[..]), (&y2[..], x), (&y3[..], x), (x, &[][..]), (&[][..], x)] {
+            let inp = format!("x={} y={}", json_floats(a), json_floats(b));
+            crumb(&inp);
+            for k in 0..4 { *tried += 1; if run_cov(k, a, b).is_ok() { finding(out, &format!("{}:unequal-lengths-accepted", COVK[k]), "returned a value for vectors of different lengths".into(), inp.clone()); } }
+        }
+    }
+    // --- extrema and first-occurrence indices
+    check_extrema(out, tried, x, rows, &input, all || it % 4 == 0);
+}
+
+/// the second vector of a pair
+fn partner(r: &mut Rng, pair: Pair, x: &[f64], mk: &mut dyn FnMut(&mut Rng, usize) -> Vec<f64>) -> (Vec<f64>, Vec<f64>) {
+    let n = x.len();
+    match pair {
+        Pair::Class => (x.to_vec(), mk(r, n)),
+        Pair::Same => (x.to_vec(), x.to_vec()),
+        Pair::Negated => (x.to_vec(), x.iter().map(|v| -v).collect()),
+        Pair::Linear => { let a = *r.pick(&[3.0, -2.0, 5.0, 1.0]); let b = r.small_int(50); (x.to_vec(), x.iter().map(|v| a * v + b).collect()) }
+        Pair::ConstY => (x.to_vec(), vec![r.small_int(50); n]),
+        Pair::ConstX => (vec![x[0]; n], mk(r, n)),
+    }
+}
+
 pub fn oracle(tier: &str, seed: u64) -> (u64, Vec<Finding>) {
     let mut r = Rng::new(seed ^ 0xC08);
     let mut out = vec![]; let mut tried = 0u64;
-    let iters = if tier == "thorough" { 12000 } else { 2500 };
+    let thorough = tier == "thorough";
+    let iters = if thorough { 12000 } else { 2500 };
+    // 1. random search: every data class of the statement (and their combination), random lengths 1..1e4
     for it in 0..iters {
         let n = if it % 50 == 49 { 1 + r.below(10000) as usize } else if it % 5 == 0 { 1 + r.below(200) as usize } else { 1 + r.below(24) as usize };
-        let class = r.below(7);
+        let class = r.below(NCLASS);
         let x = data_class(&mut r, class, n);
-        let cy = if r.coin(0.5) { class } else { r.below(7) };
+        let cy = if r.coin(0.5) { class } else { r.below(NCLASS) };
         let y = data_class(&mut r, cy, n);
-        let (kx, ky) = (ints_of(&x).unwrap(), ints_of(&y).unwrap());
-        let (ex_x, ex_y) = (ex(&kx), ex(&ky));
-        let nn = n as i128;
-        let sxy: i128 = kx.iter().zip(&ky).map(|(a, b)| a * b).sum();
-        let input = format!("x={}", json_floats(&x));
-        let input2 = format!("x={} y={}", json_floats(&x), json_floats(&y));
-        // exact definitions
-        let mean_x = ratio(ex_x.s1, nn * 1024);
-        let m2x = nn * ex_x.s2 - ex_x.s1 * ex_x.s1;           // n^2 * 1024^2 * var
-        let m2y = nn * ex_y.s2 - ex_y.s1 * ex_y.s1;
-        let cxy = nn * sxy - ex_x.s1 * ex_y.s1;               // n^2 * 1024^2 * cov
-        let var_x = ratio(m2x, nn * nn * S2);
-        let var_y = ratio(m2y, nn * nn * S2);
-        let sd_x = var_x.sqrt(); let sd_y = var_y.sqrt();
-        let maxabs = x.iter().fold(0.0f64, |a, b| a.max(b.abs()));
-        let kappa_x = if sd_x > 0.0 { mean_x.abs() / sd_x } else { 0.0 };
-        let mean_y = ratio(ex_y.s1, nn * 1024);
-        let kappa_y = if sd_y > 0.0 { mean_y.abs() / sd_y } else { 0.0 };
-        // --- exact scaling by a power of two: every operation of every algorithm commutes with it (no rounding changes, far from
-        //     overflow/underflow), so mean scales by c, std by |c|, variances and covariances by c^2, bit for bit, at EVERY scale
-        if it % 3 == 0 && n >= 2 {
-            let k = *r.pick(&[-200i32, -100, -40, -30, -12, 30, 100, 200]);
-            let c = (2.0f64).powi(k); let c2 = (2.0f64).powi(2 * k);
-            let xs: Vec<f64> = x.iter().map(|v| v * c).collect(); let ys: Vec<f64> = y.iter().map(|v| v * c).collect();
-            let inp = format!("x={} scaled by 2^{}", json_floats(&x), k);
-            crumb(&inp); tried += 1;
-            let same = |a: f64, b: f64| a == b || (a.is_nan() && b.is_nan());
-            for (name, a, b) in [("mean", mean(&xs), mean(&x) * c), ("welford_mean", welford_mean(&xs), welford_mean(&x) * c),
-                                 ("var", var(&xs), var(&x) * c2), ("sample_var", sample_var(&xs), sample_var(&x) * c2),
-                                 ("std", std(&xs), std(&x) * c), ("sample_std", sample_std(&xs), sample_std(&x) * c),
-                                 ("covariance", covariance(&xs, &ys), covariance(&x, &y) * c2), ("sample_covariance", sample_covariance(&xs, &ys), sample_covariance(&x, &y) * c2)] {
-                if !same(a, b) { out.push(Finding { class: format!("{}:not-scale-equivariant", name), what: format!("{}(2^{} x) = {:e} but 2^({}) * {}(x) = {:e}: scaling the data by a power of two must scale the statistic exactly (variance quadratically)", name, k, a, if name.contains("var") { 2 * k } else { k }, name, b), input: inp.clone() }); }
-            }
-        }
-        // --- means
-        crumb(&input);
-        for (name, got) in [("mean", mean(&x)), ("welford_mean", welford_mean(&x)), ("Vector::mean", Vector::new(x.clone()).mean())] {
-            tried += 1;
-            if !((got - mean_x).abs() <= 4.0 * (n as f64 + 2.0) * f64::EPSILON * maxabs + 1e-300) {
-                finding(&mut out, &format!("{}:wrong", name), format!("{} returned {:e}, the mean is {:e}", name, got, mean_x), input.clone());
-            }
-        }
-        // --- variances
-        // a constant data set has variance exactly 0 in exact arithmetic; a stable algorithm may return rounding noise of
-        // size eps^2.mean^2 at most (the mean itself is known to relative eps)
-        let t = tol(n, kappa_x, var_x) + 4.0 * (n as f64) * (f64::EPSILON * maxabs).powi(2);
-        tried += 2;
-        let got = var(&x);
-        if !((got - var_x).abs() <= t) { finding(&mut out, "var:wrong", format!("var returned {:e}, definition gives {:e}", got, var_x), input.clone()); }
-        let got = std(&x);
-        if !((got - sd_x).abs() <= t.sqrt().max(t / sd_x.max(1e-300))) { finding(&mut out, "std:wrong", format!("std returned {:e}, definition gives {:e}", got, sd_x), input.clone()); }
-        if n >= 2 {
-            let svar = ratio(m2x, nn * (nn - 1) * S2);
-            tried += 3;
-            let got = sample_var(&x);
-            if !((got - svar).abs() <= 2.0 * t) { finding(&mut out, "sample_var:wrong", format!("sample_var returned {:e}, definition gives {:e}", got, svar), input.clone()); }
-            let got = sample_std(&x);
-            if !((got - svar.sqrt()).abs() <= (2.0 * t).sqrt().max(2.0 * t / svar.sqrt().max(1e-300))) { finding(&mut out, "sample_std:wrong", format!("sample_std returned {:e}, definition gives {:e}", got, svar.sqrt()), input.clone()); }
-            let got = Matrix::new(x.clone(), 1, n as i32).sample_var();
-            if !((got - svar).abs() <= 2.0 * t) { finding(&mut out, "Matrix::sample_var:wrong", format!("returned {:e}, definition gives {:e}", got, svar), input.clone()); }
-        }
-        // --- shift invariance (exact integer shift keeps the data dyadic) and power-of-two scaling (exact)
-        if it % 3 == 0 {
-            let c = *r.pick(&[1.0e4, 1.0e6, 1.0e8, -1.0e8, 3.0]);
-            let xs: Vec<f64> = x.iter().map(|v| v + c).collect();
-            if ints_of(&xs).is_some() && xs.iter().zip(&x).all(|(a, b)| a - c == *b) {
-                tried += 1;
-                crumb(&format!("x={}", json_floats(&xs)));
-                let sd = var_x.sqrt();
-                let kap = if sd > 0.0 { (mean_x + c).abs() / sd } else { 0.0 };
-                let t2 = tol(n, kap, var_x) + 4.0 * (n as f64) * (f64::EPSILON * (maxabs + c.abs())).powi(2);
-                let got = var(&xs);
-                if !((got - var_x).abs() <= t2) { finding(&mut out, "var:not-shift-invariant", format!("var(x + {:e}) = {:e} but var(x) = {:e}", c, got, var_x), input.clone()); }
-            }
-            let xs: Vec<f64> = x.iter().map(|v| v * 4.0).collect();
-            tried += 1;
-            crumb(&format!("x={}", json_floats(&xs)));
-            if var(&xs) != 16.0 * var(&x) { finding(&mut out, "var:not-quadratic-in-scale", format!("var(4x) = {:e} but 16 var(x) = {:e}", var(&xs), 16.0 * var(&x)), input.clone()); }
-        }
-        // --- covariances: definition, agreement of the algorithms, cov(x,x) = var
-        let cov = ratio(cxy, nn * nn * S2);
-        let scale = sd_x * sd_y; // >= |cov| (Cauchy-Schwarz), the size of the summed terms
-        let maxy = y.iter().fold(0.0f64, |a, b| a.max(b.abs()));
-        let tc = tol(n, kappa_x.max(kappa_y), scale) + 4.0 * (n as f64) * (f64::EPSILON * maxabs) * (f64::EPSILON * maxy)
-            + 8.0 * (n as f64 + 2.0) * f64::EPSILON * (f64::EPSILON * maxabs * sd_y + f64::EPSILON * maxy * sd_x);
-        tried += 1;
-        crumb(&input2);
-        let got = covariance(&x, &y);
-        if !((got - cov).abs() <= tc) { finding(&mut out, "covariance:wrong", format!("covariance returned {:e}, definition gives {:e}", got, cov), input2.clone()); }
-        if n >= 2 {
-            let scov = ratio(cxy, nn * (nn - 1) * S2);
-            // the shifted one-pass algorithm works on x - x[0]: its stable bound carries the spread of the shifted data
-            let dx0 = x.iter().fold(0.0f64, |a, b| a.max((b - x[0]).abs())); let dy0 = y.iter().fold(0.0f64, |a, b| a.max((b - y[0]).abs()));
-            let t1 = 2.0 * tc + 32.0 * (n as f64 + 2.0) * f64::EPSILON * dx0 * dy0;
-            for (k, name) in [(1usize, "sample_covariance"), (2, "sample_covariance_onepass"), (3, "sample_covariance_online")] {
-                tried += 1;
-                let got = run_cov(k, &x, &y).map(|v| v[0]);
-                match got {
-                    Ok(g) => if !((g - scov).abs() <= if k == 2 { t1 } else { 2.0 * tc }) {
-                        finding(&mut out, &format!("{}:wrong", name), format!("{} returned {:e}, the sample covariance is {:e} (population covariance {:e})", name, g, scov, cov), input2.clone());
-                    },
-                    Err(e) => finding(&mut out, &format!("{}:panics", name), format!("panicked on equal-length vectors: {}", e), input2.clone()),
-                }
-            }
-            tried += 1;
-            crumb(&input);
-            let (a, b) = (sample_covariance(&x, &x), sample_var(&x));
-            if !((a - b).abs() <= 4.0 * t) { finding(&mut out, "sample_covariance:xx-differs-from-sample_var", format!("sample_covariance(x,x) = {:e}, sample_var(x) = {:e}", a, b), input.clone()); }
-        }
-        // --- rejection half: unequal lengths must panic
-        if it % 10 == 0 {
-            let extra = 1 + r.below(3) as usize;
-            let y2 = data_class(&mut r, 0, n + extra);
-            let inp = format!("x={} y={}", json_floats(&x), json_floats(&y2));
-            crumb(&inp);
-            for k in 0..4 { tried += 1; if run_cov(k, &x, &y2).is_ok() { finding(&mut out, &format!("{}:unequal-lengths-accepted", COVK[k]), "returned a value for vectors of different lengths".into(), inp.clone()); } }
-        }
-        // --- extrema and first-occurrence indices (finite data; +0 and -0 compare equal)
-        {
-            let mut lo = 0usize; let mut hi = 0usize;
-            for i in 1..n { if x[i] < x[lo] { lo = i; } if x[i] > x[hi] { hi = i; } }
-            tried += 4;
-            crumb(&input);
-            let (gmin, gmax, gamin, gamax) = (min(&x), max(&x), argmin(&x), argmax(&x));
-            if !(gmin == x[lo]) { finding(&mut out, "min:wrong", format!("min returned {:e}, the minimum is {:e}", gmin, x[lo]), input.clone()); }
-            if !(gmax == x[hi]) { finding(&mut out, "max:wrong", format!("max returned {:e}, the maximum is {:e}", gmax, x[hi]), input.clone()); }
-            if gamin != lo { finding(&mut out, "argmin:not-first-minimum", format!("argmin returned {}, the first index of the minimum is {}", gamin, lo), input.clone()); }
-            if gamax != hi { finding(&mut out, "argmax:not-first-maximum", format!("argmax returned {}, the first index of the maximum is {}", gamax, hi), input.clone()); }
-            if it % 4 == 0 {
-                let divs: Vec<usize> = (1..=n.min(16)).filter(|k| n % k == 0).collect();
-                let rows = *r.pick(&divs); let cols = n / rows;
-                crumb(&format!("{} rows={}", input, rows));
-                let m = Matrix::new(x.clone(), rows as i32, cols as i32);
-                tried += 2;
-                if m.argmin() != (lo / cols, lo % cols) { finding(&mut out, "Matrix::argmin:wrong", format!("returned {:?}, first minimum at {:?}", m.argmin(), (lo / cols, lo % cols)), format!("{} rows={}", input, rows)); }
-                if m.argmax() != (hi / cols, hi % cols) { finding(&mut out, "Matrix::argmax:wrong", format!("returned {:?}, first maximum at {:?}", m.argmax(), (hi / cols, hi % cols)), format!("{} rows={}", input, rows)); }
-            }
-        }
+        eval_pair(&mut r, &mut out, &mut tried, it, false, SCALE, &x, &y);
         // --- histogram bin centres: midpoints of consecutive edges, uniform and non-uniform
         if it % 2 == 0 {
             let ne = 2 + r.below(40) as usize;
             let uniform = r.coin(0.4);
             let e = edges(&mut r, ne, uniform);
-            tried += 1;
-            let emax = e.iter().fold(0.0f64, |a, b| a.max(b.abs()));
-            crumb(&format!("edges={}", json_floats(&e)));
-            match run_hist(&e) {
-                Ok(c) => {
-                    let bad = c.len() != ne - 1 || (0..ne - 1).any(|i| !((c[i] - (e[i] + e[i + 1]) / 2.0).abs() <= 8.0 * (ne as f64) * f64::EPSILON * emax));
-                    if bad {
-                        let want: Vec<f64> = (0..ne - 1).map(|i| (e[i] + e[i + 1]) / 2.0).collect();
-                        finding(&mut out, if uniform { "hist_bin_centers:wrong-uniform" } else { "hist_bin_centers:wrong-nonuniform" },
-                                format!("returned {:?}, the midpoints are {:?}", c, want), format!("edges={}", json_floats(&e)));
-                    }
-                }
-                Err(er) => finding(&mut out, "hist_bin_centers:panics", format!("panicked on {} edges: {}", ne, er), format!("edges={}", json_floats(&e))),
+            check_hist(&mut out, &mut tried, &e, if uniform { "hist_bin_centers:wrong-uniform" } else { "hist_bin_centers:wrong-nonuniform" });
+        }
+        if out.len() > 30 { return (tried, out); }
+    }
+    // 2. the same clauses on data with full mantissas (grid 2^-40 around 0, grid 2^-26 around +-1e8): the dyadic classes above have
+    //    at most ~37 significant bits, so many of their products and sums are exact
+    for it in 0..iters / 4 {
+        let n = if it % 25 == 24 { 1 + r.below(10000) as usize } else if it % 5 == 0 { 1 + r.below(200) as usize } else { 1 + r.below(24) as usize };
+        let offset = it % 3 == 0;
+        let g = if offset { 26 } else { 40 };
+        let kx = if offset { 1 } else { *r.pick(&[0u64, 0, 2, 3]) };
+        let x = data_fine(&mut r, kx, n, g);
+        let ky = if r.coin(0.5) { kx } else { *r.pick(&[0u64, 2, 3]) };
+        let y = data_fine(&mut r, ky, n, g);
+        eval_pair(&mut r, &mut out, &mut tried, it, it % 4 == 0, (2.0f64).powi(g), &x, &y);
+        if out.len() > 30 { return (tried, out); }
+    }
+    // 3. scheduled evaluation points: the ends of the stated length range (1, 2, 1e4), the lengths around the 8-way unrolling of the sum,
+    //    every class at every one of them, with every sub-check; then special pairs (y = x, y = -x, y = a x + b, a constant partner)
+    let lens: Vec<usize> = if thorough { vec![1, 2, 3, 7, 8, 9, 15, 16, 17, 63, 64, 65, 1000, 4095, 4096, 4097, 9999, 10000] } else { vec![1, 2, 3, 7, 8, 9, 16, 17, 4096, 9999, 10000] };
+    for (li, &n) in lens.iter().enumerate() {
+        for class in 0..NCLASS + 2 {
+            let reps = if n <= 100 { 2 } else { 1 };
+            for rep in 0..reps {
+                let (scale, x, y) = if class < NCLASS {
+                    let x = data_class(&mut r, class, n);
+                    let cy = if rep == 0 { class } else { (class + 1 + li as u64) % NCLASS };
+                    (SCALE, x, data_class(&mut r, cy, n))
+                } else {
+                    let g = if class == NCLASS { 40 } else { 26 };
+                    let k = if class == NCLASS { 0 } else { 1 };
+                    ((2.0f64).powi(g), data_fine(&mut r, k, n, g), data_fine(&mut r, if rep == 0 { k } else { 2 }, n, g))
+                };
+                eval_pair(&mut r, &mut out, &mut tried, li, true, scale, &x, &y);
+                if out.len() > 30 { return (tried, out); }
             }
         }
-        if out.len() > 30 { break; }
+    }
+    let plens: Vec<usize> = if thorough { vec![2, 3, 5, 8, 24, 200, 1000, 10000] } else { vec![2, 3, 8, 24, 200, 10000] };
+    for &n in &plens {
+        for class in 0..NCLASS {
+            for pair in [Pair::Same, Pair::Negated, Pair::Linear, Pair::ConstY, Pair::ConstX] {
+                if n >= 1000 && (class + pair as u64) % 3 != 0 { continue; }
+                let x0 = data_class(&mut r, class, n);
+                let (x, y) = partner(&mut r, pair, &x0, &mut |r: &mut Rng, n: usize| data_class(r, class, n));
+                eval_pair(&mut r, &mut out, &mut tried, n, true, SCALE, &x, &y);
+                if out.len() > 30 { return (tried, out); }
+            }
+        }
+    }
+    // 4. constant data of any magnitude (not on a grid: the definitions are known without exact arithmetic: mean = c, every second moment = 0),
+    //    as large as the sum n.c cannot overflow (the mean divides the sum) and down to the subnormals
+    for &n in &[1usize, 2, 3, 8, 9, 100, 10000] {
+        let big = f64::MAX / (2.0 * n as f64);
+        for &c0 in &[0.1, 1.0 / 3.0, 100000000.1, 1.0e15 + 0.5, 1.0e100, 1.0e300, big, f64::MIN_POSITIVE, 4.9e-324, 1.7e-310, 0.0] {
+            for &c in &[c0, -c0] {
+                let x = vec![c; n];
+                let input = format!("x = {} copies of {:e}", n, c);
+                crumb(&input);
+                let (vx, mx) = (Vector::new(x.clone()), Matrix::new(x.clone(), 1, n as i32));
+                for (name, got) in [("mean", mean(&x)), ("welford_mean", welford_mean(&x)), ("Vector::mean", vx.mean()), ("Matrix::mean", mx.mean())] {
+                    tried += 1;
+                    if !((got - c).abs() <= 4.0 * (n as f64 + 2.0) * f64::EPSILON * c.abs() + 1e-300) { finding(&mut out, &format!("{}:wrong", name), format!("{} returned {:e}, the mean is {:e}", name, got, c), input.clone()); }
+                }
+                let t = tol(n, 0.0, 0.0) + 4.0 * (n as f64) * (f64::EPSILON * c.abs()).powi(2);
+                let mut second: Vec<(&str, f64, f64)> = vec![("var", var(&x), t), ("std", std(&x), t.sqrt()), ("Vector::var", vx.var(), t), ("Matrix::std", mx.std(), t.sqrt())];
+                if n >= 2 { second.extend([("sample_var", sample_var(&x), 2.0 * t), ("sample_std", sample_std(&x), (2.0 * t).sqrt()), ("Vector::sample_std", vx.sample_std(), (2.0 * t).sqrt()), ("Matrix::sample_var", mx.sample_var(), 2.0 * t)]); }
+                for (name, got, allow) in second {
+                    tried += 1;
+                    if !(got.abs() <= allow) { finding(&mut out, &format!("{}:wrong", name), format!("{} returned {:e} on constant data, definition gives 0", name, got), input.clone()); }
+                }
+                // the covariance of a constant with anything is 0
+                let cy = r.below(NCLASS); let y = data_class(&mut r, cy, n);
+                let ky = centred(&ints_of(&y, SCALE).unwrap()).unwrap(); let e = ex(&ky);
+                let sd_y = ratio(n as i128 * e.s2 - e.s1 * e.s1, (n * n) as i128 * (SCALE as i128) * (SCALE as i128)).sqrt();
+                let maxy = y.iter().fold(0.0f64, |a, b| a.max(b.abs()));
+                let tc = tol(n, 0.0, 0.0) + 4.0 * (n as f64) * (f64::EPSILON * c.abs()) * (f64::EPSILON * maxy) + 8.0 * (n as f64 + 2.0) * f64::EPSILON * (f64::EPSILON * c.abs() * sd_y);
+                let inp = format!("{} y={}", input, json_floats(&y));
+                crumb(&inp);
+                for k in 0..4 {
+                    if k > 0 && n < 2 { continue; }
+                    for (a, b, side) in [(&x, &y, "cov(const, y)"), (&y, &x, "cov(y, const)")] {
+                        tried += 1;
+                        match run_cov(k, a, b) {
+                            Ok(g) => if !(g[0].abs() <= if k == 0 { tc } else { 2.0 * tc }) { finding(&mut out, &format!("{}:wrong", COVK_FN[k]), format!("{} = {:e}, the covariance with a constant is 0", side, g[0]), inp.clone()); },
+                            Err(er) => finding(&mut out, &format!("{}:panics", COVK_FN[k]), format!("panicked on equal-length vectors: {}", er), inp.clone()),
+                        }
+                    }
+                }
+                check_extrema(&mut out, &mut tried, &x, 1, &input, true);
+            }
+        }
+        // constant +-f64::MAX: the Welford moments never form n.c (proved +0 in Coq); the extrema seeds are +-f64::MAX themselves
+        for &c in &[f64::MAX, -f64::MAX] {
+            let x = vec![c; n];
+            let input = format!("x = {} copies of {:e}", n, c);
+            crumb(&input);
+            tried += 2;
+            if !(welford_mean(&x) == c) { finding(&mut out, "welford_mean:wrong", format!("returned {:e}, the mean is {:e}", welford_mean(&x), c), input.clone()); }
+            if !(var(&x) == 0.0 && std(&x) == 0.0) { finding(&mut out, "var:wrong", format!("var returned {:e} on constant data, definition gives 0", var(&x)), input.clone()); }
+            check_extrema(&mut out, &mut tried, &x, 1, &input, true);
+        }
+    }
+    // 5. extrema on finite data of extreme magnitude (+-f64::MAX is the seed of argmin / argmax), ties of the extremum at the first and the last index
+    const EXT: [f64; 14] = [f64::MAX, -f64::MAX, f64::MIN_POSITIVE, -f64::MIN_POSITIVE, 4.9e-324, -4.9e-324, 0.0, -0.0, 1.0, -1.0, 1.0e308, -1.0e308, 1.7976931348623155e308, -1.7976931348623155e308];
+    for it in 0..(if thorough { 4000 } else { 800 }) {
+        let n = if it % 100 == 99 { 10000 } else { 1 + r.below(12) as usize };
+        let mut x: Vec<f64> = (0..n).map(|_| if r.coin(0.7) { *r.pick(&EXT) } else { r.small_int(3) }).collect();
+        match (if n == 10000 { it / 100 } else { it }) % 8 {
+            0 => { x[0] = f64::MAX; } 1 => { x[0] = -f64::MAX; } 2 => { x[n - 1] = f64::MAX; } 3 => { x[n - 1] = -f64::MAX; }
+            4 => { let (lo, hi) = (min(&x), max(&x)); x[0] = lo; x[n - 1] = lo; if n > 2 { x[1] = hi; x[n - 2] = hi; } }   // ties at both ends
+            5 => { let c = *r.pick(&EXT); for v in x.iter_mut().skip(1) { *v = c; } }                                       // all equal but the first
+            _ => {}
+        }
+        let divs: Vec<usize> = (1..=n.min(16)).filter(|k| n % k == 0).collect();
+        let rows = if r.coin(0.2) { n } else { *r.pick(&divs) };
+        let input = format!("x={}", json_floats(&x));
+        check_extrema(&mut out, &mut tried, &x, rows, &input, true);
+        if out.len() > 30 { return (tried, out); }
+    }
+    // 6. bin edges: exactly two edges, thousands of edges, far from the origin, negative, decreasing, zero-width bins, scaled by 2^+-400,
+    //    as large as the sum of two edges cannot overflow; fewer than two edges are refused
+    for it in 0..(if thorough { 1500 } else { 300 }) {
+        let ne = match it % 10 { 0 => 2, 1 => 3, 2 => if it % 100 == 2 { 10001 } else { 1000 }, _ => 2 + r.below(60) as usize };
+        let uniform = r.coin(0.4);
+        let mut e = edges(&mut r, ne, uniform);
+        let mut class = if uniform { "hist_bin_centers:wrong-uniform" } else { "hist_bin_centers:wrong-nonuniform" };
+        match (it / 10) % 6 {
+            0 => { let off = *r.pick(&[1.0e6, -1.0e6, 1.0e8, -123456789.0, 1.0e12]); for v in e.iter_mut() { *v += off; } }
+            1 => { e.reverse(); class = "hist_bin_centers:wrong-nonuniform"; }
+            2 => { for i in 1..ne { if r.coin(0.3) { e[i] = e[i - 1]; } } class = "hist_bin_centers:wrong-nonuniform"; }
+            3 => { let c = (2.0f64).powi(*r.pick(&[-400, -100, 100, 400, 900])); for v in e.iter_mut() { *v *= c; } }
+            4 => { let top = e.iter().fold(0.0f64, |a, b| a.max(b.abs())).max(1.0); let c = (f64::MAX / 2.0) / top; for v in e.iter_mut() { *v *= c; } }
+            _ => { for v in e.iter_mut() { *v = -*v; } class = "hist_bin_centers:wrong-nonuniform"; }
+        }
+        check_hist(&mut out, &mut tried, &e, class);
+        if out.len() > 30 { return (tried, out); }
+    }
+    for e in [vec![], vec![0.0], vec![3.5], vec![f64::MAX]] {
+        tried += 1;
+        let inp = format!("edges={}", json_floats(&e));
+        crumb(&inp);
+        if run_hist(&e).is_ok() { finding(&mut out, "hist_bin_centers:fewer-than-two-edges-accepted", format!("returned a value for {} edge(s)", e.len()), inp); }
     }
     (tried, out)
 }
